@@ -14,6 +14,20 @@ def lookup (fs : List (String × Nat)) (n : String) : Nat :=
   | some p => p.2
   | none => 0
 
+/-- header positions covered by a write that is performed for this message (everything else keeps
+    whatever the pooled buffer contained: `Allocate` does not clear) -/
+def covered (k : Kind) (m : Msg) (i : Nat) : Bool :=
+  k.writes.any fun w => condOn m w.cond &&
+    (if w.mask ≠ 0 then false
+     else if w.width = 0 then decide (w.off ≤ i ∧ i < w.off + m.name.length)
+     else decide (w.off ≤ i ∧ i < w.off + w.width))
+
+/-- hex with the unwritten header bytes shown as `..` -/
+def showMasked (k : Kind) (m : Msg) (bs : List UInt8) : String :=
+  let h := hdrLen k m
+  String.ofList ((bs.zipIdx).flatMap fun (b, i) =>
+    if i < h ∧ !covered k m i then ['.', '.'] else [hexChar (b.toNat / 16), hexChar (b.toNat % 16)])
+
 def showFields (fs : List (String × Nat)) : String :=
   if fs.isEmpty then "-" else ",".intercalate (fs.map fun p => s!"{p.1}={p.2}")
 
@@ -25,7 +39,7 @@ def line (s : String) : String :=
     match t.toNat?, imp.toNat?, parseHex? nm, parseHex? pl, parseFields? fs with
     | some t, some imp, some nm, some pl, some fs =>
       match kindOf t with
-      | some k => showHex (encode k ⟨lookup fs, imp ≠ 0, nm, pl⟩)
+      | some k => let m : Msg := ⟨lookup fs, imp ≠ 0, nm, pl⟩; showMasked k m (encode k m)
       | none => "unknown"
     | _, _, _, _, _ => "bad-op"
   | ["parse", fr] =>
